@@ -5,13 +5,13 @@ package verifharness
 
 import (
 	"encoding/binary"
-	"time"
 	"io"
 	"net"
 	"net/http"
 	"net/http/httptest"
 	"strings"
 	"sync"
+	"time"
 )
 
 const (
